@@ -134,7 +134,22 @@ def make_queries(o, rnd, heavy):
 def build_lens(rnd, which):
     from optiland.coatings import SimpleCoating
     from optiland.rays import PolarizationState
-    if which < 6:
+    if which == 8:
+        # Newtonian paraboloid (conic exactly -1): axial rays make the quadratic term of the
+        # intersection equation vanish - a separate branch of the closed-form solver
+        from optiland.optic import Optic
+        o = Optic()
+        o.add_surface(index=0, thickness=math.inf)
+        o.add_surface(index=1, radius=-rnd.choice([500.0, 2000.0]), conic=-1.0, material="mirror", is_stop=True,
+                      thickness=-rnd.choice([250.0, 1000.0]))
+        o.add_surface(index=2)
+        o.set_aperture("EPD", rnd.choice([50.0, 200.0]))
+        o.set_field_type("angle")
+        o.add_field(y=0.0)
+        o.add_field(y=1.0)
+        o.add_wavelength(0.55, is_primary=True)
+        meta = {"lens": "paraboloid mirror", "iterative": False}
+    elif which < 6:
         names = ["CookeTriplet", "DoubleGauss", "AsphericSinglet", "Edmund_49_847", "HubbleTelescope", "TessarLens"]
         cls = {c.__name__: c for c in G.sample_classes()}[names[which]]
         o = G.quiet(cls)
